@@ -21,9 +21,11 @@ let model input =
   let (_, clean) = run_outs h.forbidden s0 h.subs in
   let (_, pre) = run_outs h.forbidden s0 (firstn i h.subs) in
   let hi = Stdlib.List.nth h.subs i in
-  let crash = if mode = "ckill" then Crash.commit_crash_state h.forbidden pre hi (nat_of_int k)
+  let crash = if mode = "sfault" then Crash.stmt_fault_state h.forbidden pre hi (nat_of_int k)
+    else if mode = "ckill" then Crash.commit_crash_state h.forbidden pre hi (nat_of_int k)
     else Crash.crash_state h.forbidden pre hi (nat_of_int k) in
-  let o_i = if mode = "kill" then "K" else if mode = "ckill" then "X" else
+  let o_i = if mode = "kill" then "K" else if mode = "ckill" then "X"
+    else if mode = "sfault" then (if k = 2 then "ES" else "EU") else
       (match Crash.fault_kind h.forbidden pre hi (nat_of_int k) with
        | Crash.FChainUpdateFail -> "EU" | Crash.FHeaderSaveFail -> "ES" | Crash.FNoWrite -> "NOWRITE") in
   let (outs, after_fault) =
